@@ -327,6 +327,41 @@ def r26_6(ctx, rep):
            "translate() must return True or False")
 
 
+@SPEC.rule(
+    "R26.7",
+    "one file's failure never escapes parse_file: the call of the parser (and the file read) lies in a try whose handlers "
+    "cover Exception and end in `return None` — an exception that escapes (UnicodeDecodeError for a wrongly encoded file, "
+    "ValueError/IndexError/IOError from the listener) aborts main(): the file is not counted and the remaining files and "
+    "models are not processed",
+)
+def r26_7(ctx, rep):
+    from .c01 import covers, handler_classes
+    R = "R26.7"
+    fn = ctx.func(CLI, "parse_file", R)
+    cfg = CFG(fn, R)
+    site = CLI + ":parse_file"
+    risky = [x for x in cfg.nodes if x.kind in ("stmt", "with") and not isinstance(x.ast, (ast.FunctionDef, ast.ClassDef)) and any(
+        (call_name(c) or "").endswith(("parser.parse", ".open", ".read")) for c in (calls(x.ast) if x.kind == "stmt" else
+                                                                                  [c for i in x.ast.items for c in ast.walk(i.context_expr) if isinstance(c, ast.Call)]))]
+    if not risky:
+        raise MechanismMissing(R, "parse_file no longer opens/reads/parses the file")
+    for k, x in enumerate(risky, 1):
+        hs = [cfg.nodes[s_] for s_ in cfg.succ[x.id] if cfg.nodes[s_].kind == "handler"]
+        cov = None
+        for h in hs:
+            cl, _u = handler_classes(h.ast)
+            if covers(cl, Exception):
+                cov = h
+        ok = cov is not None
+        if ok:
+            # every path from the handler to the exit returns None
+            rets = [r for r in cfg.stmts() if isinstance(r.ast, ast.Return) and r.id in cfg.reachable(cov.id)]
+            ok = bool(rets) and all(r.ast.value is None or (isinstance(r.ast.value, ast.Constant) and r.ast.value.value is None) for r in rets)
+        rep.ob(R, site, "failure of `%s` is contained" % x.text()[:50], ok,
+               "an exception raised here that is not one of the handled classes escapes parse_file and main(): e.g. a file that is not valid "
+               "UTF-8 raises UnicodeDecodeError — it is not counted as an error and no further file or model is processed")
+
+
 # -- seeded variants ---------------------------------------------------------
 from ._mut import delete_stmt_where, replace_in_func  # noqa: E402
 
@@ -405,3 +440,15 @@ def _m6(mod):
         return False
 
     return mod if replace_in_func(mod, "translate", edit) else None
+
+
+@SPEC.mutant("parse_file handles only listener and OS errors", CLI, "R26.7", "is contained")
+def _m_narrow(mod):
+    def edit(fn):
+        for h in ast.walk(fn):
+            if isinstance(h, ast.ExceptHandler) and is_name(h.type, "Exception"):
+                h.type = ast.parse("(KeyError, AttributeError, OSError)", mode="eval").body
+                return True
+        return False
+
+    return mod if replace_in_func(mod, "parse_file", edit) else None
